@@ -44,6 +44,7 @@ def op_pipeline(req):
         # the windows are what the code's own configuration parser makes of (first, delta, last)
         windows = process_genome.parse_algorithm_config(cpath)["window_range"]
         genome = req.get("genome", "G")
+        snap = {}
         try:
             skip = set()
             before = req["case"].get("before")
@@ -52,6 +53,8 @@ def op_pipeline(req):
                 # the same or another genome id
                 import time
                 g0, t0, c0 = os.path.join(d, "genes_earlier.tsv"), os.path.join(d, "tes_earlier.tsv"), os.path.join(d, "cfg_earlier.ini")
+                if before.get("same_names"):        # the annotation files are edited in place
+                    g0, t0 = gpath, tpath
                 gen.write_pair(before["case"], g0, t0, c0)
                 w0 = process_genome.parse_algorithm_config(c0)["window_range"]
                 _pipeline_body({}, d, g0, t0, out, ovl, w0, before["genome"])
@@ -60,9 +63,16 @@ def op_pipeline(req):
                     set("%s_%s.h5" % (genome, c) for c in set(g["chrom"] for g in req["case"]["genes"]))
                 time.sleep(0.03)
                 gen.write_pair(req["case"], gpath, tpath, cpath)
+                if before.get("backdate_inputs"):
+                    # the new annotation files carry modification times older than every intermediate of the earlier run (cp -p, rsync -t)
+                    old = time.time() - 86400
+                    os.utime(gpath, (old, old)); os.utime(tpath, (old, old))
+            snap = {fn: os.stat(os.path.join(out, fn)).st_mtime_ns for fn in os.listdir(out) if fn.endswith(".h5")} if os.path.isdir(out) else {}
             return _pipeline_body(req, d, gpath, tpath, out, ovl, windows, genome, skip)
         except BaseException as e:  # noqa
-            left = sorted(fn for fn in os.listdir(out) if fn.endswith(".h5")) if os.path.isdir(out) else []
+            # result files written (or rewritten) by THIS run
+            left = sorted(fn for fn in os.listdir(out) if fn.endswith(".h5") and os.stat(os.path.join(out, fn)).st_mtime_ns != snap.get(fn)) \
+                if os.path.isdir(out) else []
             return {"ok": False, "exc": type(e).__name__, "msg": str(e)[:500], "tb": traceback.format_exc()[-1500:], "result_files": left}
     finally:
         shutil.rmtree(d, ignore_errors=True)
